@@ -52,8 +52,8 @@ def run_case(seed, kind=None):
     b = Builder()
     rec = {'desc': d, 'kind': last_kind(d), 'diffs': [], 'hash_problems': [], 'memo_problems': []}
     try:
-        history = None
-        if d['k'] == 'chain' and len(d['layers']) >= 2 and d['layers'][-1]['k'] in ('filter', 'keep', 'drop', 'groupby', 'check_ids') \
+        history, decoy = None, None
+        if d['k'] == 'chain' and len(d['layers']) >= 2 and d['layers'][-1]['k'] in ('filter', 'keep', 'drop', 'groupby', 'check_ids', 'split') \
                 and rng.random() < 0.3:
             # the last layer is ONE object that was composed before with another dataset exposing the same ids and field names
             # with other values, and evaluated there: at its position in this pipeline it must behave as an independent copy
@@ -111,6 +111,19 @@ def run_case(seed, kind=None):
             rec['diffs'].append([f'value:{f}', {i: av.get(i) for i in bad[:3]} or av, {i: ev.get(i) for i in bad[:3]} or ev])
     if 'ids_changed' in a:
         rec['diffs'].append(['ids-after-evaluations', a['ids_changed'], a.get('ids')])
+    if decoy is not None and history == 'evaluated' and rec['kind'] in ('groupby', 'split') and 'ids' in a:
+        # the id mapping is kept once per pipeline object: using the other pipeline built from the same layer object in between
+        # does not make this one compute its mapping again
+        try:
+            decoy.ids
+            mark = b.world.mark()
+            layer.ids
+            again = [c[0] for c in b.world.since(mark)]
+            if again:
+                rec['memo_problems'] = [f'{rec["kind"]}: one layer object in two pipelines: after the other pipeline was used, reading ids '
+                                        f'again re-executed {sorted(set(again))} although this pipeline object had computed its id mapping']
+        except Exception:
+            pass
     if rec['kind'] in ('join', 'groupby', 'split') and 'ids' in a and a.get('ids_again_calls'):
         rec['memo_problems'] = [f'{rec["kind"]}: reading ids again re-executed {sorted(set(a["ids_again_calls"]))} although the id '
                                 f'mapping is kept in memory once per pipeline object']
